@@ -8,6 +8,9 @@ CHECKS = {
  "C01": dict(engine="E-mut", technique="exhaustive single-site mutation of the outstanding honest SendLastStateProof in every receiver scenario, trusted-view equality oracle",
    text="For every world (chain shape, last-N, RNG seed, Dummy and easy-target Eaglesong PoW) and every receiver scenario with an outstanding proof request (first proof from genesis, new proof on the sampled / short / reorg path, and on Eaglesong a self-consistent chain whose non-tip headers fail PoW) every single-site mutant of the honest answer to the request the client itself generated is delivered to the real handler: boundary values over every byte window of width 4/8/32, every truncation, vector operators on headers and proof (drop/duplicate/swap/reverse/insert), substitution of each header by the fork twin or the neighbouring height, each also with the attacker-controlled commitments re-sealed. After every delivery the complete trusted view (per-peer prove states, stored tip, total difficulty and last-N headers, get_header over all world headers) must be byte-identical; the honest answer itself must be accepted (control), the unmined chain must be rejected, and every honest answer of every other scenario delivered in this state from the asked or an unknown peer must not change the view.",
    note="Single-site mutations (pairs are not enumerated); hash collisions excluded; Eaglesong targets are easy by construction so that PoW rejection is observable.", design="DESIGN.md §3 C01"),
+ "C02": dict(engine="E-mut", technique="exhaustive single-site mutation of pending SendBlock / SendBlocksProof / SendTransactionsProof answers with a store-vs-world invariant (InvCommitted) after every delivery and after running on to quiescence",
+   text="In the scenarios where a matched-blocks proof, block bodies or fetch proofs (header + transaction) are pending, with the V0 and the V1 layout, every single-site mutant (byte windows of width 4/8/32 at every offset, truncations, vector operators incl. the V1 uncles-hash / extension vectors and a V1->V0 downgrade) of the honest answer is delivered to the real handlers. After every delivery that changed anything - and, if the mutant was not banned, after dropping its honest twin and running the honest history on to quiescence - the whole store is scanned: every stored transaction, cell and history entry, header (+extension) and number->hash record must be what the proven chain contains at that place (full bytes for indexed transactions, hash for fetched ones). Every honest answer of every scenario and every block of the main and fork chains is also delivered unsolicited, from the asked and from an unknown peer, and must not change the indexed key space; the honest continuation of every scenario must converge with a committed, non-empty index.",
+   note="Single-site mutations; witnesses of fetched transactions are compared by transaction hash only (the protocol gives the client only witnesses_root); hash collisions excluded.", design="DESIGN.md §3 C02"),
  "C07": dict(engine="E-grid", technique="exhaustive enumeration of peer check-point vector assignments x quorum sizes x delivery/tick schedules through the real handlers, invariants evaluated after every tick",
    text="Exhaustive grid: max_outbound 1..4 (quorum 1..2) x 1..4 proven peers (+1 unproven) x every ordered assignment of chained check-point vectors over {H,X,Y} of length <= 2 (thorough 3; the 4th peer from the short vectors) x schedules (all-then-tick, round-robin, peer-by-peer, every peer order with a tick after every chunk, restart after the first finalisation). Messages go through the real BlockFilterCheckPoints handler and REFRESH_PEERS tick. After every tick: a newly final index is backed by >= quorum proven peers agreeing on every index since the previous final one; stored check points are never rewritten and the final index never decreases (also across a restart); a proven peer contradicting the final value is banned and no agreeing peer is; >= quorum agreeing peers are never blocked by fewer than quorum shorter/different ones; unproven peers have no influence.",
    note="A banned peer is disconnected by the harness (as ckb-network does). Check point values are chained like filter hashes (a value determines its prefix). Exact ties may finalise either value.", design="DESIGN.md §3 C07"),
@@ -26,7 +29,7 @@ CHECKS = {
 }
 ENGINES = [
  {"name":"E-grid","path":"harness/src/verif/props/c07.rs, c13.rs, c14.rs, c15.rs","serves_properties":["C07","C13","C14","C15"],"kind_free_text":"exhaustive enumeration of a finite input / configuration grid of real functions or handler rounds against a reference"},
- {"name":"E-mut","path":"harness/src/verif/mutate.rs, props/sweep.rs, props/c01.rs, props/c10.rs","serves_properties":["C01","C10"],"kind_free_text":"exhaustive single-site mutation of every honest message of a history, delivered in every receiver scenario"},
+ {"name":"E-mut","path":"harness/src/verif/mutate.rs, props/sweep.rs, props/c01.rs, props/c02.rs, props/c10.rs","serves_properties":["C01","C02","C10"],"kind_free_text":"exhaustive single-site mutation of every honest message of a history, delivered in every receiver scenario"},
 ]
 NOT_YET = "check under construction"
 
